@@ -126,6 +126,28 @@ fn send_and_check(rep: &mut Report, channel: u32, cmd_idx: usize, payload: &[u8]
     if !matches!(cid, c if c == channel.to_ne_bytes() || c == channel.to_be_bytes() || c == channel.to_le_bytes()) {
         rep.violate("channel id bytes are not an encoding of the channel id", hex_short(cid), case.clone());
     }
+    // the same message through a writer that holds what it is given until it is flushed (std's BufWriter,
+    // a report-oriented device writer): once send has returned, every packet has left the writer
+    if len % 7 == 0 || len < 130 {
+        let r = catch(|| Message::new(channel, cmd, payload).map(|m| {
+            let mut bw = std::io::BufWriter::with_capacity(1 << 17, Capture::default());
+            let ok = m.send(&mut bw).is_ok();
+            let out: Vec<u8> = bw.get_ref().writes.concat();
+            // (dropping a BufWriter flushes it; what counts is what had come out when send returned)
+            (ok, out)
+        }));
+        match r {
+            Ok(Ok((true, out))) => {
+                rep.count("sends_through_a_buffering_writer");
+                let all: Vec<u8> = cap.writes.concat();
+                if out != all {
+                    rep.violate("after send returned, packets are still held back in a buffering writer", format!("{} of {} bytes had left the writer", out.len(), all.len()), case.clone());
+                }
+            }
+            Ok(Ok((false, _))) | Ok(Err(_)) => rep.violate("send through a buffering writer fails although the same message was sent through a plain one", String::new(), case.clone()),
+            Err((sig, d)) => rep.violate(&format!("sender {sig}"), d, case.clone()),
+        }
+    }
     Some(cap.writes)
 }
 
